@@ -122,7 +122,7 @@ theorem C01_scan_partial (rnd : Rat → Rat) (o : Oracle) (k : Nat) (globalDry :
   intro e he
   have := scanGroup_entries rnd o k globalDry cfg st0 g view h nowMock nowReal e he
   cases this with
-  | metrics id b => rfl
+  | metrics n hn b => rfl
   | force hf => exact removalEntry_backed (c := ⟨globalDry, cfg, st0, g, view, nowMock, nowReal⟩) (fun n hn => forceCand_eligible hn) hf
   | reap hf => exact removalEntry_backed (c := ⟨globalDry, cfg, st0, g, view, nowMock, nowReal⟩) (fun n hn => reaperCand_eligible hsoft hhard hr hn) hf
   | taint hd c hc ha => cases ha <;> rfl
